@@ -508,9 +508,170 @@ def run_objrefs(t, vd):
             t.violation("value:object-reference", {"label": lab, "observed": v.text, "source": src})
 
 
+# --------------------------------------------------------------------------- every place a constant can land
+
+def _loc_prop(name, tag="property"):
+    def f(root, obj):
+        e = uiread.find_object(root, obj)
+        p_ = uiread.prop(e, name, tag) if e is not None else None
+        return p_.children[0].text if p_ is not None and p_.children else None
+    return f
+
+
+def _loc_member(prop, member, attr=False):
+    def f(root, obj):
+        e = uiread.find_object(root, obj)
+        p_ = uiread.prop(e, prop) if e is not None else None
+        if p_ is None or not p_.children:
+            return None
+        g = p_.children[0]
+        if attr:
+            return g.attrs.get(member)
+        m = g.find(member)
+        return m.text if m is not None else None
+    return f
+
+
+def _loc_item_attr(attr):
+    def f(root, obj):
+        e = uiread.find_object(root, obj)
+        it = e.parent if e is not None else None
+        return it.attrs.get(attr) if it is not None and it.tag == "item" else None
+    return f
+
+
+def _loc_layout_array(attr, index):
+    def f(root, obj):
+        e = uiread.find_object(root, "lay")
+        v = e.attrs.get(attr) if e is not None else None
+        if v is None:
+            return None
+        parts = v.split(",")
+        return parts[index] if index < len(parts) else None
+    return f
+
+
+def _loc_first_item(root, obj):
+    e = uiread.find_object(root, obj)
+    it = e.find("item") if e is not None else None
+    p_ = uiread.prop(it, "text") if it is not None else None
+    return p_.children[0].text if p_ is not None and p_.children else None
+
+
+def _doc(body):
+    return "import qmluic.QtWidgets\nQWidget {{\n    id: root\n" + body + "}}\n"
+
+
+# (kind, name, document template with {e}, locator)
+SINK_POSITIONS = [
+    ("int", "property", _doc("    QSpinBox {{ id: t; maximum: {e} }}\n"), _loc_prop("maximum")),
+    ("int", "gadget-member:font.pointSize", _doc("    QLabel {{ id: t; font.pointSize: {e} }}\n"), _loc_member("font", "pointsize")),
+    ("int", "gadget-member:geometry.x", _doc("    QLabel {{ id: t; geometry {{ x: {e}; y: 1; width: 2; height: 3 }} }}\n"), _loc_member("geometry", "x")),
+    ("int", "gadget-member:minimumSize.height", _doc("    QLabel {{ id: t; minimumSize {{ width: 1; height: {e} }} }}\n"), _loc_member("minimumSize", "height")),
+    ("int", "gadget-member:sizePolicy.verticalStretch",
+     _doc("    QLabel {{ id: t; sizePolicy {{ horizontalPolicy: QSizePolicy.Fixed; verticalPolicy: QSizePolicy.Fixed; verticalStretch: {e} }} }}\n"),
+     _loc_member("sizePolicy", "verstretch")),
+    ("int", "layout-property:spacing", _doc("    QWidget {{ QVBoxLayout {{ id: t; spacing: {e} }} }}\n"), _loc_prop("spacing")),
+    ("int", "layout-margins:top", _doc("    QWidget {{ QVBoxLayout {{ id: t; contentsMargins {{ left: 0; top: {e}; right: 0; bottom: 0 }} }} }}\n"), _loc_prop("topMargin")),
+    ("int", "spacer:sizeHint.width", _doc("    QWidget {{ QVBoxLayout {{ QSpacerItem {{ id: t; sizeHint {{ width: {e}; height: 1 }} }} }} }}\n"), _loc_member("sizeHint", "width")),
+    ("int", "header-map:defaultSectionSize", _doc("    QTableView {{ id: t; horizontalHeader.defaultSectionSize: {e} }}\n"),
+     _loc_prop("horizontalHeaderDefaultSectionSize", "attribute")),
+    ("int", "attached:rowStretch", _doc("    QWidget {{ QGridLayout {{ id: lay; QLabel {{ id: t; QLayout.rowStretch: {e} }} }} }}\n"), _loc_layout_array("rowstretch", 0)),
+    ("int", "attached:columnMinimumWidth", _doc("    QWidget {{ QGridLayout {{ id: lay; QLabel {{ id: t; QLayout.columnMinimumWidth: {e} }} }} }}\n"),
+     _loc_layout_array("columnminimumwidth", 0)),
+    ("int", "attached:rowSpan", _doc("    QWidget {{ QGridLayout {{ id: lay; QLabel {{ id: t; QLayout.rowSpan: {e} }} }} }}\n"), _loc_item_attr("rowspan")),
+    ("int", "action-property:priority-like", _doc("    QAction {{ id: t; autoRepeat: true }}\n    QSlider {{ id: t2; pageStep: {e} }}\n"),
+     lambda root, obj: _loc_prop("pageStep")(root, "t2")),
+    ("bool", "property", _doc("    QCheckBox {{ id: t; checked: {e} }}\n"), _loc_prop("checked")),
+    ("bool", "gadget-member:font.bold", _doc("    QLabel {{ id: t; font.bold: {e} }}\n"), _loc_member("font", "bold")),
+    ("bool", "header-map:visible", _doc("    QTreeView {{ id: t; header.visible: {e} }}\n"), _loc_prop("headerVisible", "attribute")),
+    ("bool", "action-property", _doc("    QAction {{ id: t; checkable: {e} }}\n"), _loc_prop("checkable")),
+    ("str", "property", _doc("    QLabel {{ id: t; toolTip: {e} }}\n"), _loc_prop("toolTip")),
+    ("str", "gadget-member:font.family", _doc("    QLabel {{ id: t; font.family: {e} }}\n"), _loc_member("font", "family")),
+    ("str", "attached:tab-title", _doc("    QTabWidget {{ QWidget {{ id: t; QTabWidget.title: {e} }} }}\n"), _loc_prop("title", "attribute")),
+    ("str", "icon-theme", _doc("    QLabel {{ id: t; windowIcon.name: {e} }}\n"), _loc_member("windowIcon", "theme", attr=True)),
+    ("str", "model-item", _doc("    QComboBox {{ id: t; model: [{e}] }}\n"), _loc_first_item),
+    ("str", "action-text", _doc("    QAction {{ id: t; text: {e} }}\n"), _loc_prop("text")),
+    ("float", "property", _doc("    QDoubleSpinBox {{ id: t; maximum: {e} }}\n"), _loc_prop("maximum")),
+    ("float", "property:singleStep", _doc("    QDoubleSpinBox {{ id: t; singleStep: {e} }}\n"), _loc_prop("singleStep")),
+]
+SINK_EXPRS = {
+    "int": ["0", "1", "-1", "7", "1 + 2", "7 / 2", "-7 / 2", "-7 % 3", "7 % -3", "1 << 4", "-16 >> 2", "6 & 3", "6 | 3", "6 ^ 3", "~5",
+            "2147483647", "-2147483648", "2147483648", "4294967297", "-4294967295", "65536", "0x10", "0b101", "017", "1_000",
+            "3 * (2 - 5)", "(7 - 7) * 9", "- -3"],
+    "bool": ["true", "false", "!true", "1 < 2", "2 <= 1", "3 >= 3", "3 > 3", "\"a\" == \"a\"", "true && false", "true || false", "1.5 >= 1.5"],
+    "str": ['"a"', '""', '"a" + "b"', '"x\\ty"', '"q\\"q"', '"\\u00e9"', '"%1".arg("z")', '"%1-%2".arg("a").arg("b")', '"n=%1".arg(3)', "'s'"],
+    "float": ["0.5", "1.5 + 2.0", "5.0 / 2.0", "-1.5", "1e2", ".5", "2.5e-1", "1.5 * 2.0", "3.0 - 4.5"],
+}
+SINK_EXPECT = {
+    # str family: spelled here because consteval covers operators only
+    '"a"': "a", '""': "", '"a" + "b"': "ab", '"x\\ty"': "x\ty", '"q\\"q"': 'q"q', '"\\u00e9"': "\u00e9", '"%1".arg("z")': "z",
+    '"%1-%2".arg("a").arg("b")': "a-b", '"n=%1".arg(3)': "n=3", "'s'": "s",
+    "true": True, "false": False, "!true": False, "1 < 2": True, "2 <= 1": False, "3 >= 3": True, "3 > 3": False,
+    '"a" == "a"': True, "true && false": False, "true || false": True, "1.5 >= 1.5": True,
+    "0.5": 0.5, "1.5 + 2.0": 3.5, "5.0 / 2.0": 2.5, "-1.5": -1.5, "1e2": 100.0, ".5": 0.5, "2.5e-1": 0.25, "1.5 * 2.0": 3.0, "3.0 - 4.5": -1.5,
+    "0": 0, "1": 1, "-1": -1, "7": 7, "1 + 2": 3, "7 / 2": 3, "-7 / 2": -3, "-7 % 3": -1, "7 % -3": 1, "1 << 4": 16, "-16 >> 2": -4,
+    "6 & 3": 2, "6 | 3": 7, "6 ^ 3": 5, "~5": -6, "2147483647": 2147483647, "-2147483648": -2147483648, "2147483648": 2147483648,
+    "4294967297": 4294967297, "-4294967295": -4294967295, "65536": 65536, "0x10": 16, "0b101": 5, "017": 15, "1_000": 1000,
+    "3 * (2 - 5)": -9, "(7 - 7) * 9": 0, "- -3": 3,
+}
+
+
+def sink_work(shard, nshards, payload):
+    """The same constants in every position a constant can land (properties, gadget members, layout
+    margins, spacer hints, header-map attributes, attached settings, tab attributes, icon themes, model
+    items, actions): whatever is embedded must be the denoted value.  A position may refuse a value
+    (out of its range): that is not judged here; a different value is."""
+    vd = vc.worker_vdrive()
+    t = vc.Tally()
+    k = 0
+    for kind, name, tmpl, loc in SINK_POSITIONS:
+        for e in SINK_EXPRS[kind]:
+            k += 1
+            if k % nshards != shard:
+                continue
+            src = tmpl.format(e=e)
+            r = vd.job({"id": k, "source": src, "modes": ["generate"]})
+            if "modes" not in r or r["modes"]["generate"].get("status") == "panic":
+                t.lost.append({"id": f"sink/{name}/{e}"})
+                continue
+            g = r["modes"]["generate"]
+            t.inc("sink_documents")
+            t.inc("family:sink-positions")
+            if r.get("has_syntax_error"):
+                raise vc.MachineryError("sink document does not parse:\n" + src)
+            if not vc.accepted(g):
+                t.inc("sink_refused")
+                continue
+            got = loc(uiread.parse(g["ui"]), "t")
+            want = SINK_EXPECT[e]
+            t.inc("expressions")
+            t.distinct.add(("sink", name, e))
+            case = {"id": f"sink/{name}/{e}", "source": src, "expected": want, "embedded": got}
+            if got is None:
+                t.violation(f"sink:accepted-but-not-embedded:{name}", case)
+            elif kind == "int":
+                if not (re.fullmatch(r"-?\d+", got) and int(got) == want):
+                    t.violation(f"sink:value:{name}", case)
+            elif kind == "bool":
+                if got != ("true" if want else "false"):
+                    t.violation(f"sink:value:{name}", case)
+            elif kind == "float":
+                try:
+                    ok = float(got) == want
+                except ValueError:
+                    ok = False
+                if not ok:
+                    t.violation(f"sink:value:{name}", case)
+            elif got != want:
+                t.violation(f"sink:value:{name}", case)
+    return t
+
+
 def main(tier, t0):
     vc.ensure_vdrive()
     tally = vc.merge_tallies(vc.run_sharded(shard_work, {"tier": tier}))
+    tally.merge(vc.merge_tallies(vc.run_sharded(sink_work, {"tier": tier})))
     c = tally.counts
     cov = {
         "evaluations": c.get("expressions", 0) + c.get("typing-probes", 0),
@@ -526,6 +687,8 @@ def main(tier, t0):
         "rejected_although_defined": c.get("rejected-although-defined", 0),
         "not_embedded_dynamic": c.get("not-embedded-dynamic", 0),
         "typing_probes": c.get("typing-probes", 0),
+        "sink_positions": {"positions": len(SINK_POSITIONS), "documents": c.get("sink_documents", 0),
+                           "refused_by_the_position": c.get("sink_refused", 0)},
     }
     assumptions = [
         "integers are 64-bit signed; value outside => undefined => must be rejected; shift counts outside "
